@@ -21,11 +21,16 @@
 #include "os_base.h"
 
 #include "util_int.h"
+#include "verif_hook.h"
 #include <pthread.h>
 #include <sys/stat.h>
 #include <qb/qbconfig.h>
 #include <qb/qbdefs.h>
 #include <qb/qbutil.h>
+
+#ifdef LIBQB_VERIF
+qb_verif_hook_fn_t qb_verif_hook_fn = NULL;
+#endif
 
 struct qb_thread_lock_s {
 	qb_thread_lock_type_t type;
